@@ -9,6 +9,7 @@ def run(ck, progs):
                      "older checkpoints are freed")
     ck.rule("C13.2", "history side: frontier argument is 'newest committed index + 1', scan is strictly below GVT, truncation uses the returned value")
     ck.rule("C13.3", "restore picks the newest checkpoint with ref_i <= target, returns that checkpoint's own ref_i, frees only newer ones and cuts the log after it")
+    ck.rule("C13.5", "fossil_lp_collect reads the history only after testing that it is not empty (an LP whose history was reclaimed completely must survive the next round)")
     ck.rule("C13.4", "the scan for the committed frontier reads the timestamp of a history element only when the element is proven a processed "
                      "message (both tag bits clear) or is the last element of the history; a sent-message entry taken for a processed one "
                      "puts the frontier inside an uncommitted event")
@@ -19,3 +20,4 @@ def run(ck, progs):
         rules_fossil.check_release_equals_truncate(ck, P, "C13.2")
         rules_fossil.check_log_restore(ck, P, "C13.3")
         rules_msg.check_entry_derefs(ck, P, "C13.4", only=("fossil_lp_collect",), floor=1)
+        rules_fossil.check_nonempty_before_last(ck, P, "C13.5")
